@@ -145,8 +145,8 @@ Definition ones (n : nat) : list F := repeat (f1 O) n.
 (* static keys are scattered once per run (evaluated without time/state), time-varying keys at
    every evaluation: model_impl.build_get_flow_weights + run_model/one_step *)
 Definition static_flow_weights (p : env) (fl : list flow) : list F :=
-  fold_left (fun w ke => if mentions_mv (fst ke) then w
-                         else scatter_const w (snd ke) (eval O p (f0 O) [] (fst ke)))
+  fold_left (fun w ke => if negb (mentions_mv (fst ke))
+                         then scatter_const w (snd ke) (eval O p (f0 O) [] (fst ke)) else w)
             (flow_key_map fl) (zeros (List.length fl)).
 
 Definition flow_weights (p : env) (t : F) (x : list F) (fl : list flow) : list F :=
@@ -206,27 +206,34 @@ Definition infectious_multipliers (m : model) (b : backend) (freq : bool) (p : e
   zip_with (fun sk ck => get_clamp (f0 O) (nth sk per_strain []) ck)
            (b_infect_strain_lookup b) (b_infect_cat_lookup b).
 
-(* model_impl.build_get_flow_rates *)
-Definition get_flow_rates (m : model) (b : backend) (p : env) (t : F) (x0 : list F) : list F :=
-  let x := vclean O x0 in
-  let w := flow_weights p t x (m_flows m) in
-  let pops := gather (f0 O) x (b_population_idx b) in
-  let pops := scatter_const pops (b_non_pop_idx b) (f1 O) in
-  let pops := scatter_const pops (b_crude_idx b) (fsum O x) in
-  let rates := vmul O w pops in
-  let rates := match b_process b with
-               | None => rates
-               | Some freq =>
-                   let mul := infectious_multipliers m b freq p t x in
-                   scatter_set rates (b_infectious_flow_idx b)
-                               (vmul O (gather (f0 O) rates (b_infectious_flow_idx b)) mul)
-               end in
+(* model_impl.build_get_flow_rates, stage by stage *)
+(* populations seen by each flow: source compartment, 1 for population-independent flows,
+   total population for crude births *)
+Definition flow_populations (b : backend) (x : list F) : list F :=
+  scatter_const (scatter_const (gather (f0 O) x (b_population_idx b)) (b_non_pop_idx b) (f1 O))
+                (b_crude_idx b) (fsum O x).
+
+Definition apply_infection (m : model) (b : backend) (p : env) (t : F) (x : list F) (rates : list F) : list F :=
+  match b_process b with
+  | None => rates
+  | Some freq =>
+      scatter_set rates (b_infectious_flow_idx b)
+                  (vmul O (gather (f0 O) rates (b_infectious_flow_idx b))
+                          (infectious_multipliers m b freq p t x))
+  end.
+
+Definition apply_replacement (b : backend) (rates : list F) : list F :=
   match b_repl_idx b with
   | [] => rates
   | _ => let deaths := fsum O (gather (f0 O) rates (b_death_idx b)) in
          scatter_set rates (b_repl_idx b)
                      (map (fun r => fmul O r deaths) (gather (f0 O) rates (b_repl_idx b)))
   end.
+
+Definition get_flow_rates (m : model) (b : backend) (p : env) (t : F) (x0 : list F) : list F :=
+  let x := vclean O x0 in
+  apply_replacement b
+    (apply_infection m b p t x (vmul O (flow_weights p t x (m_flows m)) (flow_populations b x))).
 
 (* model_impl.build_get_compartment_rates: application matrix times flow rates *)
 Definition get_comp_rates_of (ncomp : nat) (b : backend) (rates : list F) : list F :=
